@@ -18,19 +18,20 @@ for pid, P in PROPS.items():
         cmd = ["java", "-XX:+UseParallelGC", "-Xmx16g", "-cp", "/opt/veriftools/tla/tla2tools.jar:/opt/veriftools/tla/CommunityModules-deps.jar",
                "tlc2.TLC", "-workers", "12", "-metadir", md, "-cleanup", "-noGenerateSpecTE", "-config", "/verif/spec/" + mc["cfg"], "/verif/spec/" + mc["module"] + ".tla"]
         t = time.time()
-        p = subprocess.Popen(cmd, stdout=subprocess.PIPE, stderr=subprocess.STDOUT, text=True, env=dict(os.environ, JAVA_TOOL_OPTIONS="-Xss1g"))
+        out = "/verif/work/size_out_%d.txt" % os.getpid()
+        with open(out, "w") as f:
+            try:
+                subprocess.run(cmd, stdout=f, stderr=subprocess.STDOUT, timeout=cap, env=dict(os.environ, JAVA_TOOL_OPTIONS="-Xss1g"))
+            except subprocess.TimeoutExpired:
+                pass
         cases = 0; nbytes = 0; states = "?"; done = False
-        try:
-            for line in p.stdout:
-                if line.startswith('"CASE '):
-                    cases += 1; nbytes += len(line)
-                else:
-                    m = re.match(r"(\d+) states generated, (\d+) distinct", line)
-                    if m: states = m.group(2)
-                    if "Model checking completed" in line: done = True
-                if time.time() - t > cap:
-                    p.kill(); break
-        finally:
-            p.wait()
+        for line in open(out, errors="replace"):
+            if line.startswith('"CASE '):
+                cases += 1; nbytes += len(line)
+            else:
+                m = re.match(r"(\d+) states generated, (\d+) distinct", line)
+                if m: states = m.group(2)
+                if "Model checking completed" in line: done = True
+        os.unlink(out)
         subprocess.run(["rm", "-rf", md])
         print("%-4s %-34s states=%-9s cases=%-9d caseMB=%-6d %5.0fs %s" % (pid, mc["cfg"], states, cases, nbytes >> 20, time.time() - t, "done" if done else "CAPPED"), flush=True)
